@@ -1,5 +1,5 @@
 //@ unit C09_cff
-//@ props C09 C15
+//@ props C09 C15 C01
 //@ module src/cff.rs
 //@ strength complete for offset_size (all usize); bounded(INDEX offset arrays of 2 entries; last offset symbolic over the full u32 range) for serialise_offset_array
 //@ unverified owned::Index write / read_index round trip on object data, DICT two-pass offsets, charsets, FDSelect
@@ -40,4 +40,30 @@ fn cff_offset_array() {
     let b: usize = kani::any(); kani::assume(b > 0xFF && b <= 0xFFFF); offset_array_case(2, b);
     let c: usize = kani::any(); kani::assume(c > 0xFFFF && c <= 0xFF_FFFF); offset_array_case(3, c);
     let d: usize = kani::any(); kani::assume(d > 0xFF_FFFF && d <= 0xFFFF_FFFF); offset_array_case(4, d);
+}
+
+//@ harness index_read_object kind=bounded:2objects_offSize1 fns=read_index,lookup_offset_index,Index::read_object props=C01,C15
+#[kani::proof]
+#[kani::unwind(6)]
+fn index_read_object() {
+    // a CFF INDEX with two objects and 1-byte offsets; ANY offset values (zero, decreasing, beyond the data) and any object index:
+    // never a panic - an object is either exactly data[offset[i]-1 .. offset[i+1]-1] or it is refused
+    let offs: [u8; 3] = kani::any();
+    let data: [u8; 4] = kani::any();
+    let bytes = [1u8, offs[0], offs[1], offs[2], data[0], data[1], data[2], data[3]];
+    let mut ctxt = ReadScope::new(&bytes).ctxt();
+    if let Ok(index) = read_index(&mut ctxt, 2) {
+        let i: usize = kani::any();
+        match index.read_object(i) {
+            Some(obj) => {
+                assert!(i < 2);
+                let (s, e) = (offs[i] as usize, offs[i + 1] as usize);
+                assert!(s >= 1 && s <= e && e - 1 <= index.data_array.len(), "an object is only delivered for a well-formed offset pair");
+                assert!(obj.len() == e - s);
+                let k: usize = kani::any();
+                if k < obj.len() { assert!(obj[k] == data[s - 1 + k], "object bytes = data[offset[i]-1 ..]"); }
+            }
+            None => {}
+        }
+    }
 }
